@@ -197,7 +197,9 @@ def cases(env, rng, thorough=False, parts=("stacks", "freeze", "circ", "conv")):
                     yield (name, key, f)
     # DiagonalReplicated: every (input_axis, output_axis) for a 2-d -> 1-d and a 2-d -> 2-d operator
     for cplx in ((False, True) if "stacks" in parts else ()):
-        for insh, outsh in (((2, 3), (2,)), ((2, 2), (3, 2)), ((3,), (2,))):
+        # (the axis grid is swept at random by drep_tie with the Lean model; quick keeps two shape pairs here for the
+        #  derived T / H / conj / gram_op of a replicated operator)
+        for insh, outsh in ((((2, 3), (2,)), ((2, 2), (3, 2)), ((3,), (2,))) if thorough else (((2, 3), (2,)), ((3,), (2,)))):
             nin, nout = int(np.prod(insh)), int(np.prod(outsh))
             Gm = vals(rng, (nout, nin), cplx).astype(np.complex128)
             Gj = jnp.asarray(Gm if cplx else Gm.real, dtype="complex128" if cplx else "float64")
@@ -343,7 +345,8 @@ def cases(env, rng, thorough=False, parts=("stacks", "freeze", "circ", "conv")):
             for c in scal:
                 for nm, f, W in (("c*A", lambda: c * A, c * DA), ("A*c", lambda: A * c, c * DA), ("A/c", lambda: A / c, DA / c)):
                     yield (f"Circ{hs}/{ins}/{nd} {nm} c={c!r} ch={cplx_h}", ("circ", nm, hs, ins, nd, repr(c), cplx_h), check_op(env, f, W, "CircularConvolve " + nm, tol=1e-8))
-    for mode in (("full", "valid", "same") if "conv" in parts else ()):
+    conv_modes = ("full", "valid", "same") if thorough else (("full", "valid", "same")[int(rng.integers(3))], ("full", "valid", "same")[int(rng.integers(3))])
+    for mode in (dict.fromkeys(conv_modes) if "conv" in parts else ()):
         for hs, ins in ((((2,), (4,)), ((3,), (3,)), ((2, 2), (3, 4))) if thorough else (((2,), (4,)), ((2, 2), (3, 4)))):
             for cplx_h in (False, True):
                 hdt = "complex128" if cplx_h else "float64"
@@ -352,7 +355,7 @@ def cases(env, rng, thorough=False, parts=("stacks", "freeze", "circ", "conv")):
                 DA, DB = dense(env, A), dense(env, B)
                 yield (f"Conv{hs}/{ins}/{mode} A+B c={cplx_h}", ("conv+", hs, ins, mode, cplx_h), check_op(env, lambda: A + B, DA + DB, "Convolve.__add__"))
                 yield (f"Conv{hs}/{ins}/{mode} A-B c={cplx_h}", ("conv-", hs, ins, mode, cplx_h), check_op(env, lambda: A - B, DA - DB, "Convolve.__sub__"))
-                for c in (2.0, 3, 2 - 1j) if cplx_h else (2.0, 3, -0.5):
+                for c in ((2.0, 3, 2 - 1j) if cplx_h else (2.0, 3, -0.5)) if thorough else ((3, 2 - 1j) if cplx_h else (3, -0.5)):
                     for nm, f, W in (("c*A", lambda: c * A, c * DA), ("A*c", lambda: A * c, c * DA), ("A/c", lambda: A / c, DA / c)):
                         yield (f"Conv{hs}/{ins}/{mode} {nm} c={c!r} ch={cplx_h}", ("conv", nm, hs, ins, mode, repr(c), cplx_h), check_op(env, f, W, "Convolve " + nm))
 
@@ -965,6 +968,163 @@ def drep_tie(ctx, env, om, n):
 
             ctx.disagree("opalg.DiagonalReplicated:" + d[0], {"case": json.loads(json.dumps(case))}, json.loads(json.dumps(d[1], default=str)),
                          json.loads(json.dumps(d[2], default=str)), oracle=orc)
+            bad += 1
+            if bad >= 5:
+                break
+
+
+# ----------------------------------------------------------------------------- Convolve closed-form arithmetic with a Lean model
+# (Model/OpAlg.lean: ConvOp; theorem C05_convolve_arith; convolution itself = engine LinOps' convEval)
+
+KNOWN_CONV_JAX = "convolve-jax-scalar"
+
+
+def conv_jax_still_fails(env):
+    """witness: jnp.asarray(2.0) * Convolve(...) raises TypeError (result_type(input_dtype, type(scalar)))"""
+    jnp, linop = env.jnp, env.linop
+    A = linop.Convolve(jnp.asarray([1.0, 2.0], dtype="float64"), (4,), input_dtype=np.dtype("float64"))
+    try:
+        jnp.asarray(2.0, dtype="float64") * A
+        return False
+    except TypeError:
+        return True
+
+
+def conv_tie(ctx, env, om, n):
+    import json
+
+    import opalg_trees as T
+
+    jnp, linop = env.jnp, env.linop
+    modes = ["full", "valid", "same"]
+    kinds = [("int", None), ("float", None), ("complex", None), ("np", "float32"), ("np", "float64"), ("np", "complex128"),
+             ("jx", "float64"), ("jx", "complex64"), ("jx", "complex128"), ("arr", None), ("str", None)]
+    bad = 0
+    for i in range(n):
+        rng = ctx.rng
+        what = ["add", "sub", "mul", "div"][int(rng.integers(4))]
+        dts = [str(rng.choice(["float64", "complex128", "float32"], p=[0.5, 0.35, 0.15])) for _ in range(2)]
+        if rng.random() < 0.8:
+            dts[1] = dts[0]
+
+        def mk(pre, n_, k_, mode, dt):
+            hdt = dt if rng.random() < 0.85 else str(rng.choice(G.DTS))
+            h = vals(rng, (k_,), G.is_cplx(hdt))
+            return {pre + "h": G.encs(h), pre + "n": n_, pre + "mode": mode, pre + "indt": dt, pre + "hdt": hdt}
+
+        n_a, k_a, mode_a = int(rng.integers(1, 6)), int(rng.integers(1, 4)), modes[int(rng.integers(3))]
+        case = {"what": what}
+        case.update(mk("a_", n_a, k_a, mode_a, dts[0]))
+        if what in ("add", "sub"):
+            r = rng.random()
+            n_b, k_b, mode_b = n_a, k_a, mode_a
+            if r < 0.12:
+                mode_b = modes[int(rng.integers(3))]
+            elif r < 0.2:
+                k_b = int(rng.integers(1, 4))
+            elif r < 0.26:
+                n_b = int(rng.integers(1, 6))
+            case.update(mk("b_", n_b, k_b, mode_b, dts[1]))
+        else:
+            kind, kd = kinds[int(rng.integers(len(kinds)))]
+            case["c"] = T.scalar(rng, kind=kind, dt=kd)
+            if what == "div" and G.dec(case["c"]["v"]) == 0:
+                case["c"]["v"] = G.enc(2.0)
+
+        def build(pre):
+            h = G.decs(case[pre + "h"])
+            hdt = case[pre + "hdt"]
+            return linop.Convolve(jnp.asarray(h if G.is_cplx(hdt) else h.real, dtype=hdt), (case[pre + "n"],),
+                                  input_dtype=np.dtype(case[pre + "indt"]), mode=case[pre + "mode"])
+
+        try:
+            A = build("a_")
+            if what in ("add", "sub"):
+                B = build("b_")
+                R = A + B if what == "add" else A - B
+            else:
+                c = env.scalar(case["c"])
+                R = c * A if (what == "mul" and rng.random() < 0.5) else (A * c if what == "mul" else A / c)
+            impl = ("ok", R)
+        except Exception as ex:  # noqa: BLE001
+            impl = ("err", common.err_kind(ex), repr(ex)[:160])
+        xs = []
+        info = None
+        if impl[0] == "ok":
+            R = impl[1]
+            if type(R).__name__ != "Convolve":
+                # not the closed form (e.g. operands of different shapes are rejected before; generic sum otherwise)
+                info = {"cls": type(R).__name__}
+            else:
+                info = {"in_shape": G.lst(R.input_shape), "out_shape": G.lst(R.output_shape), "in_dtype": np.dtype(R.input_dtype).name,
+                        "out_dtype": np.dtype(R.output_dtype).name, "h_dtype": np.dtype(R.h.dtype).name, "h": np.asarray(R.h).astype(np.complex128)}
+                xs = [vals(rng, (info["in_shape"][0],), G.is_cplx(info["in_dtype"])).astype(np.complex128) for _ in range(2)]
+                info["eval"] = [env.flat(R(env.to_array(x, info["in_shape"], info["in_dtype"]))) for x in xs]
+        try:
+            mod = ("ok", om.call("conv", xs=[G.encs(x) for x in xs], **case))
+        except common.ModelErr as ex:
+            mod = ("err", ex.kind)
+        key = ("conv", what, case["a_mode"], case["a_n"], len(case["a_h"]), case["a_indt"], case["a_hdt"],
+               case.get("b_mode"), case.get("b_n"), case.get("b_indt"), (case.get("c") or {}).get("kind"), (case.get("c") or {}).get("dt"))
+        ctx.case({"what": "Convolve " + what, "key": str(key)}, key, sample_every=150)
+        ctx.count("Convolve:" + what + (":rejected:" + impl[1] if impl[0] == "err" else ":ok"))
+        diff = None
+        kid = None
+        if impl[0] == "err" or mod[0] == "err":
+            if impl[0] != mod[0] or impl[1] != mod[1]:
+                diff = ("constructible/error-kind", list(impl[:2]) if impl[0] == "err" else "ok", list(mod[:2]) if mod[0] == "err" else "ok")
+                if impl[0] == "err" and impl[1] == "type" and mod[0] == "ok" and case.get("c", {}).get("kind") == "jx":
+                    kid = KNOWN_CONV_JAX
+        elif "cls" in info:
+            diff = ("class", info["cls"], "Convolve")
+        else:
+            m = mod[1]
+            tol = 2e-4 if any(G.is32(d) for d in (info["in_dtype"], info["h_dtype"])) else 1e-9
+            for k in ("in_shape", "out_shape", "in_dtype", "out_dtype", "h_dtype"):
+                if info[k] != m[k]:
+                    diff = (k, info[k], m[k])
+                    break
+            if diff is None and not G.vec_close(info["h"], G.decs(m["h"]), tol, 4):
+                diff = ("filter", [complex(z) for z in info["h"]], [complex(z) for z in G.decs(m["h"])])
+            if diff is None:
+                for u, v in zip(info["eval"], m["eval"]):
+                    if not G.vec_close(u, G.decs(v), tol, 8):
+                        diff = ("eval", [complex(z) for z in u], [complex(z) for z in G.decs(v)])
+                        break
+        if diff:
+            def orc(c, case=case, impl=impl, what=what):
+                # the property on the implementation: the closed form is the pointwise combination of the operands;
+                # a scalar-equivalent factor is accepted
+                if impl[0] == "err":
+                    if what in ("mul", "div") and case["c"]["kind"] not in ("arr", "str"):
+                        return {"what": "Convolve " + what, "scalar": case["c"]["kind"] + ":" + str(case["c"].get("dt")), "raised": impl[2],
+                                "every other LinearOperator class accepts this scalar": True}
+                    return None
+                try:
+                    R = impl[1]
+                    A = build("a_")
+                    x = vals(np.random.Generator(np.random.PCG64(5)), (case["a_n"],), G.is_cplx(np.dtype(R.input_dtype).name)).astype(np.complex128)
+                    X = env.to_array(x, [case["a_n"]], np.dtype(R.input_dtype).name)
+                    ya = np.asarray(A(X.astype(A.input_dtype) if not G.is_cplx(np.dtype(A.input_dtype).name) else X)).astype(np.complex128)
+                    if what in ("add", "sub"):
+                        B = build("b_")
+                        yb = np.asarray(B(X.astype(B.input_dtype) if not G.is_cplx(np.dtype(B.input_dtype).name) else X)).astype(np.complex128)
+                        want = ya + yb if what == "add" else ya - yb
+                    else:
+                        cv = G.dec(case["c"]["v"])
+                        want = cv * ya if what == "mul" else ya / cv
+                    got = np.asarray(R(X)).astype(np.complex128)
+                    if got.shape != want.shape or not G.vec_close(got, want, 2e-4, 8):
+                        return {"what": "Convolve " + what, "x": [str(complex(z)) for z in x], "returned": [str(complex(z)) for z in got],
+                                "pointwise_combination": [str(complex(z)) for z in want]}
+                except Exception:  # noqa: BLE001
+                    return None
+                return None
+
+            ctx.disagree("opalg.Convolve:" + diff[0], {"case": json.loads(json.dumps(case))}, json.loads(json.dumps(diff[1], default=str)),
+                         json.loads(json.dumps(diff[2], default=str)), oracle=orc, known_id=kid)
+            if kid is not None and ctx.is_known(kid):
+                continue
             bad += 1
             if bad >= 5:
                 break
